@@ -27,7 +27,12 @@ class _Sink(io.StringIO):
 def workdir():
     home = os.environ.get("VERIF_HOME") or os.path.dirname(os.path.dirname(os.path.dirname(os.path.abspath(__file__))))
     d = os.path.join(home, ".work", "img-%d" % os.getpid())
-    os.makedirs(d, exist_ok=True)
+    if not os.path.isdir(d):
+        import atexit
+        import shutil
+
+        os.makedirs(d, exist_ok=True)
+        atexit.register(shutil.rmtree, d, True)
     return d
 
 
